@@ -8,13 +8,13 @@ TECHNIQUE = "Coq proof of non-interference of the login's writes and outcome in 
 RULE = ("encrypted logins with random user/host/app names, passwords of any bytes and lengths 0..key capacity+2 (incl. passwords equal to the user name or contained in the application name), 0..3 remote servers, "
         "nonces of 0..64 bytes, keys of 1024 (thorough: ..2048) bits, valid / packet-size-changing / multi-edited / rejected reply scripts, three packetisations: every packet the client writes is captured by the peer; "
         "ciphertext spans are decrypted with the private key and blanked; the rest is compared with the model run on the blinded configuration; error text searched for distinctive passwords; control: plain-flow logins (password found in its slot), "
-        "modes below ENCRYPT4 (nothing written). One case = one login. Non-trivial = every case; distinct by input.")
+        "modes below ENCRYPT4 (nothing written). One case = one login. Non-trivial = every case; distinct by input. Default configuration: tds.NewLoginConfig on all 2^10 combinations of the settings of a connection description (TLS enforced, validation skipped, debug logging, port, network, host, timeouts, database; lg.InfoOf) - the Encrypt mode of each as a case (fn 33) and as the regenerated table g_default_encrypt; 40 (quick) / 1024 (thorough) complete logins run with such a default configuration while the case records ENCRYPT4.")
 ASSUMPTIONS = ASSUMPTIONS_COMMON
 LEVEL_TEXT = ("C09_noninterference: for every key oracle, encryption function, reply sequence and any two configurations that agree up to the contents of the secrets, equal ciphertexts imply equal bytes on the wire "
               "(every byte written is a function of public data and of enc(nonce ++ secret) only); C09_outcome_independent_of_secrets: result class, capabilities, packet size are those of the blinded configuration; "
               "C09_second_message_shape: the secrets travel as enc(nonce ++ secret) - password, every remote password, session key; C09_record_slots_empty + C09_first_message: the record on the wire has empty password slots; "
               "C09_control_plain_password: the plain flow does carry the password (control). The harness decrypts the ciphertexts with the private key (nonce ++ secret, pairwise distinct, fresh 32-byte session key) and compares all "
-              "other bytes with the model run on the blinded configuration. Cryptographic strength of RSA-OAEP / crypto/rand is outside the model.")
+              "other bytes with the model run on the blinded configuration. Cryptographic strength of RSA-OAEP / crypto/rand is outside the model. C09_default_config_encrypts / _table_complete: every row of the regenerated table of NewLoginConfig (all 1024 kinds of connection description) asks for password encryption.")
 LEVEL_NOTE = "Trusted: Coq kernel; hand-written login/rx/tx/package models (validated by correspondence on every run); Go harness and standard-library crypto as key oracle; extraction + driver."
 def nontrivial(c):
     return True
